@@ -200,3 +200,93 @@ func cliRuns(c *run.Ctx, s *kit.Summary, r *kit.Rng) {
 		}
 	}
 }
+
+// cliRepeatedRun: the same attack command run twice with the same -output file, the second run shorter. What the
+// file holds afterwards are the results of the second attack: every timestamp at or after ITS start, sequence and
+// timestamp order in agreement. (Records of equal sequence number have equal size in both runs — one server, one
+// URL, latencies of one magnitude, no bodies — so a tail left over from the first run would decode cleanly.)
+func cliRepeatedRun(c *run.Ctx, s *kit.Summary, r *kit.Rng) {
+	if _, err := os.Stat(c.Vegeta); err != nil {
+		s.Skipped["cli: no vegeta binary"]++
+		return
+	}
+	for i := 0; i < c.N(1, 6); i++ {
+		srv := httptest.NewServer(http.HandlerFunc(func(rw http.ResponseWriter, rq *http.Request) {
+			time.Sleep(30 * time.Millisecond)
+		}))
+		out := filepath.Join(c.Work, fmt.Sprintf("c05-repeat-%d.gob", i))
+		workers := []int{2, 4, 8}[r.Pick(3)]
+		runOnce := func(du string) (time.Time, bool) {
+			t0 := time.Now()
+			cmd := exec.Command(c.Vegeta, "attack", "-name", "c05repeat", "-rate=100/s", "-duration="+du, fmt.Sprintf("-workers=%d", workers), "-output", out)
+			cmd.Env = append(os.Environ(), "VEGETA_VERIF_DRIVER=")
+			cmd.Stdin = strings.NewReader("GET " + srv.URL + "/\n")
+			done := make(chan error, 1)
+			if err := cmd.Start(); err != nil {
+				return t0, false
+			}
+			go func() { done <- cmd.Wait() }()
+			select {
+			case err := <-done:
+				return t0, err == nil
+			case <-time.After(60 * time.Second):
+				cmd.Process.Kill()
+				<-done
+				return t0, false
+			}
+		}
+		if _, ok := runOnce("700ms"); !ok {
+			s.Skipped["cli: attack command failed"]++
+			srv.Close()
+			continue
+		}
+		st1, _ := os.Stat(out)
+		t0, ok := runOnce("250ms")
+		srv.Close()
+		if !ok {
+			s.Skipped["cli: attack command failed"]++
+			continue
+		}
+		s.Count("cli:attack_repeated_onto_the_same_output_file")
+		f, err := os.Open(out)
+		if err != nil {
+			s.Skipped["cli: output not readable"]++
+			continue
+		}
+		var results []*vegeta.Result
+		dec := vegeta.NewDecoder(f)
+		for {
+			var res vegeta.Result
+			if err := dec.Decode(&res); err != nil {
+				if err != io.EOF {
+					s.Count("cli:decode_error(C07's subject)")
+				}
+				break
+			}
+			results = append(results, &res)
+		}
+		f.Close()
+		os.Remove(out)
+		in := map[string]interface{}{"command": fmt.Sprintf("vegeta attack -name c05repeat -rate=100/s -duration=700ms -workers=%d -output F; then the same with -duration=250ms and the same F", workers),
+			"size_of_F_after_first_run": st1.Size(), "results_read_from_F": len(results)}
+		sort.SliceStable(results, func(a, b int) bool {
+			if results[a].Seq != results[b].Seq {
+				return results[a].Seq < results[b].Seq
+			}
+			return results[a].Timestamp.Before(results[b].Timestamp)
+		})
+		for j, res := range results {
+			s.Case(fmt.Sprint("cli-repeat:", i, ":", res.Seq), true)
+			if res.Timestamp.Before(t0) {
+				s.Violate(kit.Violation{Kind: "timestamp_before_attack_start", What: "command line: the output of an attack holds a result whose timestamp precedes the start of that attack", Input: in,
+					Expected: ">= " + t0.Format(time.RFC3339Nano), Observed: fmt.Sprintf("seq %d: %s", res.Seq, res.Timestamp.Format(time.RFC3339Nano))})
+				break
+			}
+			if j > 0 && res.Seq != results[j-1].Seq && res.Timestamp.Before(results[j-1].Timestamp) {
+				s.Violate(kit.Violation{Kind: "seq_order_disagrees_with_timestamp_order", What: "command line: a result with a larger sequence number has an earlier timestamp", Input: in,
+					Expected: ">= " + results[j-1].Timestamp.Format(time.RFC3339Nano), Observed: fmt.Sprintf("seq %d: %s", res.Seq, res.Timestamp.Format(time.RFC3339Nano))})
+				break
+			}
+		}
+	}
+}
